@@ -310,6 +310,20 @@ def corr_rotH(run, cases, rotors, preps, poison=0.0):
     return b.flush() + b2.flush() + b3.flush()
 
 
+def corr_mul(run, cases):
+    """the GENERATED `_multiplication_helper` (Gen/MulKern.lean, with the 3-j model as `calculate`) against the numba helper, bit for bit.
+    cases: [(L1, L2, Lfg, sf, sg, f, g, label)] with 1-d complex arrays from ell = 0"""
+    from spherical.multiplication import _multiplication_helper
+    b = Batch(run, "multiplication-helper-generated-kernel")
+    for (L1, L2, Lfg, sf, sg, f, g, lab) in cases:
+        fg = np.zeros((Lfg + 1) ** 2, dtype=complex)
+        with np.errstate(all="ignore"):
+            _multiplication_helper(np.asarray(f, dtype=complex), 0, L1, sf, np.asarray(g, dtype=complex), 0, L2, sg, fg, 0, Lfg, sf + sg)
+        b.add(f"genmul {L1} {L2} {Lfg} {sf} {sg} " + cx_tokens(f) + " " + cx_tokens(g), arr_bits(fg),
+              {"L1": L1, "L2": L2, "Lfg": Lfg, "s_f": sf, "s_g": sg, "stratum": lab, "model": "generated"}, lab)
+    return b.flush(split="|")
+
+
 def corr_w3j(run, cases, poison=3.5):
     """cases: [(j2max, j3max, j2, j3, m2, m3)] -> compares Wigner3jCalculator(j2max,j3max).calculate(j2,j3,m2,m3)"""
     import spherical
